@@ -20,13 +20,14 @@ import (
 	"github.com/flamego/flamego/verifharness/internal/gen"
 )
 
-const rule = "case = request method in {GET, HEAD, POST, PUT, DELETE, OPTIONS, \"\"} x an underlying writer (with or without http.Flusher, with or without io.ReaderFrom; sometimes itself a fresh flamego ResponseWriter around the spy) x a history of 1..14 operations over {WriteHeader(100..999), Write / io.WriteString / io.Copy of 0..64 bytes or of 0.5..70 KB (optionally cut short by the underlying writer with an error), Flush, Before(hook)}; hooks set a header, read Status()/Written(), log themselves and sometimes register one more function while they run. " +
+const rule = "case = request method in {GET, HEAD, POST, PUT, DELETE, OPTIONS, \"\"} x an underlying writer (with or without http.Flusher, with or without io.ReaderFrom; sometimes itself a fresh flamego ResponseWriter around the spy) x a history of 1..14 operations over {WriteHeader(100..999; with an underlying writer that refuses other codes by panicking also 0, 99, 1000, -1), Write / io.WriteString / io.Copy of 0..64 bytes or of 0.5..70 KB (optionally cut short by the underlying writer with an error), Flush, Before(hook)}; hooks set a header, read Status()/Written(), log themselves and sometimes register one more function while they run. " +
 	"Oracle: a state-machine model written from the statement, compared after every step (Status, Written, Size, return values of Write) together with invariants over the log of calls the underlying writer received (<=1 WriteHeader, before every Write/Flush; hooks registered before the trigger ran exactly once, in reverse order, before that WriteHeader, and saw Status()==0; later hooks never run). " +
 	"non-trivial = a history with >=2 hooks and a trigger, or a second WriteHeader / an implicit 200, or a body write on HEAD, or a short write; distinct by case text"
 
 var assumptions = []string{
 	"hooks do not write to the response themselves (re-entering the writer from a hook is a caller error)",
-	"status codes are in 100..999 (net/http rejects others)",
+	"status codes outside 100..999 are only used with an underlying writer that refuses them by panicking, as net/http's does (a writer that takes WriteHeader(0) cannot be told from one that was never called)",
+	"hooks do not panic (C15 has those)",
 }
 
 func TestMain(m *testing.M) { evid.Main(m, "C13", rule, assumptions) }
@@ -51,7 +52,10 @@ type Case struct {
 	// ResponseWriter (of a GET request) around the spy, as when one Flame
 	// instance is mounted inside another.
 	Stacked bool `json:"stacked,omitempty"`
-	Ops     []Op `json:"ops"`
+	// Strict: the underlying writer refuses status codes outside 100..999 by
+	// panicking (net/http does); only then are such codes generated.
+	Strict bool `json:"strict_underlying,omitempty"`
+	Ops    []Op `json:"ops"`
 }
 
 // spy is the underlying writer.
@@ -60,10 +64,16 @@ type spy struct {
 	log   []string
 	short int // next Write is cut by this many bytes
 	body  int
+	// strict: a status code outside 100..999 is refused with a panic, as
+	// net/http's own writer does
+	strict bool
 }
 
 func (s *spy) Header() http.Header { return s.h }
 func (s *spy) WriteHeader(c int) {
+	if s.strict && (c < 100 || c > 999) {
+		panic(fmt.Sprintf("invalid WriteHeader code %v", c))
+	}
 	s.log = append(s.log, fmt.Sprintf("WH %d hdr=%s", c, strings.Join(s.h["X-Hooks"], ",")))
 }
 func (s *spy) Write(b []byte) (int, error) {
@@ -110,7 +120,7 @@ func (p plainReader) Read(b []byte) (int, error) { return p.r.Read(b) }
 var errShort = errors.New("short write")
 
 func checkCase(c Case) (out evid.Outcome) {
-	s := &spy{h: http.Header{}}
+	s := &spy{h: http.Header{}, strict: c.Strict}
 	var under http.ResponseWriter = s
 	switch {
 	case c.Flusher && c.ReaderFrom:
@@ -136,6 +146,7 @@ func checkCase(c Case) (out evid.Outcome) {
 	second := false
 	headWrite := false
 	shortSeen := false
+	refused := false
 
 	trigger := func(code int) {
 		if mStatus != 0 {
@@ -155,6 +166,46 @@ func checkCase(c Case) (out evid.Outcome) {
 		case "wh":
 			if mStatus != 0 {
 				second = true
+			}
+			if op.V < 100 || op.V > 999 {
+				// a code the underlying writer refuses: what the wrapper makes of it
+				// is open - the panic may come through (nothing is sent then; hooks
+				// registered so far may have run on the way), or another status may be
+				// sent in its place. The model takes over what happened in this step -
+				// which hooks ran, which status line was accepted - and holds
+				// everything against it from here on: Status() is the status sent,
+				// hooks that ran do not run again, the others still do.
+				if !c.Strict {
+					panic("harness: out-of-range code without a strict underlying writer")
+				}
+				refused = true
+				linesBefore, runsBefore := len(s.log), len(hookRuns)
+				func() {
+					defer func() { _ = recover() }()
+					w.WriteHeader(op.V)
+				}()
+				if mStatus != 0 {
+					break // the response was committed already: the call is dropped
+				}
+				for _, id := range hookRuns[runsBefore:] {
+					at := -1
+					for i, h := range mHooks {
+						if h == id {
+							at = i
+						}
+					}
+					if at < 0 {
+						return fail(out, "hooks", "%s: during the refused WriteHeader(%d) hook %d ran, which is not among the pending ones %v (-1000-id marks a hook that observed a status)", desc, op.V, id, mHooks)
+					}
+					mHooks = append(mHooks[:at:at], mHooks[at+1:]...)
+					wantRuns = append(wantRuns, id)
+				}
+				if len(s.log) > linesBefore && strings.HasPrefix(s.log[linesBefore], "WH ") {
+					var code int
+					fmt.Sscanf(s.log[linesBefore], "WH %d", &code)
+					trigger(code)
+				}
+				break
 			}
 			trigger(op.V)
 			w.WriteHeader(op.V)
@@ -307,6 +358,10 @@ func checkCase(c Case) (out evid.Outcome) {
 		out.NonTrivial = true
 		out.Classes = append(out.Classes, "stacked-wrappers")
 	}
+	if refused {
+		out.NonTrivial = true
+		out.Classes = append(out.Classes, "status-code-refused-by-underlying-writer")
+	}
 	if nHooks > hooksAtTrigger && triggered {
 		out.Classes = append(out.Classes, "late-hook")
 	}
@@ -338,13 +393,18 @@ func genCase(t *rapid.T) Case {
 		Flusher:    rapid.Bool().Draw(t, "flusher"),
 		ReaderFrom: rapid.Bool().Draw(t, "readerfrom"),
 		Stacked:    rapid.IntRange(0, 4).Draw(t, "stacked") == 0,
+		Strict:     rapid.IntRange(0, 2).Draw(t, "strict") == 0,
 	}
 	n := rapid.IntRange(1, 14).Draw(t, "nops")
 	hook := 0
 	for i := 0; i < n; i++ {
 		switch k := rapid.IntRange(0, 9).Draw(t, "op"); {
 		case k < 2:
-			c.Ops = append(c.Ops, Op{K: "wh", V: rapid.IntRange(100, 999).Draw(t, "code")})
+			code := rapid.IntRange(100, 999).Draw(t, "code")
+			if c.Strict && rapid.IntRange(0, 2).Draw(t, "badcode") == 0 {
+				code = []int{0, 99, 1000, -1, 1234}[rapid.IntRange(0, 4).Draw(t, "bad")]
+			}
+			c.Ops = append(c.Ops, Op{K: "wh", V: code})
 		case k < 5:
 			op := Op{K: []string{"w", "w", "ws", "cp"}[rapid.IntRange(0, 3).Draw(t, "wk")], V: rapid.IntRange(0, 64).Draw(t, "n")}
 			if rapid.IntRange(0, 9).Draw(t, "big") == 0 {
